@@ -5,7 +5,9 @@
 //! property oracle.  The two kinds of failure are logged separately.
 
 use std::sync::Mutex;
+use vh_proto::gen::{gen_response_kind, GenCfg, KINDS};
 use vh_proto::parsecommon::*;
+use vh_proto::print::{print_response, Style};
 use vh_proto::prng::{hex, unhex, Rng};
 use vh_proto::run::*;
 
@@ -16,6 +18,8 @@ struct Ctx {
     imps: Vec<String>,
     notes: Vec<&'static str>,
     prop: String,
+    /// inputs on which implementation and model differed: the directed search starts from these
+    suspects: Vec<Vec<u8>>,
 }
 
 impl Ctx {
@@ -27,6 +31,7 @@ impl Ctx {
             imps: vec![],
             notes: vec![],
             prop: prop.to_string(),
+            suspects: vec![],
         }
     }
 
@@ -59,6 +64,10 @@ impl Ctx {
             }
         }
         for i in bad {
+            if self.suspects.len() < 40 {
+                let h = self.ops[i].split(' ').nth(1).unwrap_or("").to_string();
+                self.suspects.push(unhex(&h));
+            }
             let d = Disagreement {
                 op: self.ops[i].clone(),
                 imp: clip(&self.imps[i]),
@@ -201,6 +210,61 @@ fn oracle_c09(ctx: &mut Ctx, b: &[u8], note: &'static str) {
                         &[b],
                     );
                 }
+            }
+        }
+    }
+}
+
+/// Directed search around an input on which implementation and model disagree: run the property's
+/// oracle on its prefixes, extensions and mutants, looking for a concrete failing input.
+fn search_around(ctx: &mut Ctx, rng: &mut Rng, b: &[u8]) {
+    let prop = ctx.prop.clone();
+    let conts: Vec<Vec<u8>> = vec![
+        b"\r\n".to_vec(),
+        b"* 1 EXISTS\r\n".to_vec(),
+        b" ".to_vec(),
+        b"x".to_vec(),
+        b")\r\n".to_vec(),
+        b"\"\r\n".to_vec(),
+    ];
+    let mut cands: Vec<Vec<u8>> = vec![b.to_vec()];
+    let step = std::cmp::max(1, b.len() / 300);
+    let mut k = 0;
+    while k < b.len() {
+        cands.push(b[..k].to_vec());
+        k += step;
+    }
+    for x in &conts {
+        let mut e = b.to_vec();
+        e.extend_from_slice(x);
+        cands.push(e);
+    }
+    for _ in 0..60 {
+        let other = *rng.pick(SEEDS);
+        let (m, _) = mutate(rng, b, other);
+        cands.push(m);
+    }
+    ctx.log.count_n("search:candidates", cands.len() as u64);
+    for c in cands {
+        match prop.as_str() {
+            "C02" => {
+                for x in &conts {
+                    oracle_c02_pair(ctx, &c, x, "search");
+                }
+                let v = verdict(&c);
+                if let Some(n) = consumed_of(&v) {
+                    let cuts: Vec<usize> = (0..n).collect();
+                    oracle_c02_prefixes(ctx, &c[..n], &cuts, "search");
+                }
+            }
+            "C09" => {
+                oracle_c09(ctx, &c, "search");
+                let mut e = c.clone();
+                e.extend_from_slice(b"\r\n");
+                oracle_c09(ctx, &e, "search");
+            }
+            _ => {
+                oracle_c01(ctx, &c, "search");
             }
         }
     }
@@ -484,9 +548,44 @@ fn mutate_kind(rng: &mut Rng, seed: &[u8], other: &[u8], want: u64) -> (Vec<u8>,
 
 // ------------------------------------------------------------------------------------------------
 
-fn seeds_for(extra: &[Vec<u8>]) -> Vec<Vec<u8>> {
+/// generated valid responses of every kind (type-directed values, independent RFC printer with
+/// random encoding choices); `per_kind` responses for each of the generator's kinds
+fn generated_seeds(seed: u64, per_kind: usize, max_lit: usize) -> Vec<Vec<u8>> {
+    let mut rng = Rng::new(seed ^ 0x5eed);
+    let mut v = vec![];
+    for round in 0..per_kind {
+        for k in 0..KINDS.len() {
+            let cfg = GenCfg {
+                max_depth: if round % 4 == 3 { 4 } else { 2 },
+                adversarial: round % 2 == 1,
+                max_str: 12,
+                max_lit: if round % 8 == 7 { max_lit } else { 40 },
+            };
+            let r = std::panic::catch_unwind(|| {
+                let mut rng2 = Rng::new(seed.wrapping_mul(7919).wrapping_add((round * 1000 + k) as u64));
+                let val = gen_response_kind(&mut rng2, &cfg, k);
+                let st = Style {
+                    random_case: rng2.bool(),
+                    string_forms: rng2.below(3) as u8,
+                    zero_pad: if rng2.bool() { 0 } else { 3 },
+                    deviations: rng2.bool(),
+                    lsub: rng2.chance(1, 8),
+                };
+                print_response(&val, &mut rng2, &st)
+            });
+            if let Ok(b) = r {
+                v.push(b);
+            }
+            let _ = &mut rng;
+        }
+    }
+    v
+}
+
+fn seeds_for(extra: &[Vec<u8>], gen: Vec<Vec<u8>>) -> Vec<Vec<u8>> {
     let mut v: Vec<Vec<u8>> = SEEDS.iter().map(|s| s.to_vec()).collect();
     v.extend(extra.iter().cloned());
+    v.extend(gen);
     v
 }
 
@@ -508,9 +607,11 @@ fn random_line(rng: &mut Rng) -> Vec<u8> {
     v
 }
 
-fn run_c01(ctx: &mut Ctx, rng: &mut Rng, seeds: &[Vec<u8>], n: u64) {
-    for s in seeds {
-        oracle_c01(ctx, s, "seed");
+fn run_c01(ctx: &mut Ctx, rng: &mut Rng, seeds: &[Vec<u8>], n: u64, shard: usize, shards: usize) {
+    for (i, s) in seeds.iter().enumerate() {
+        if i % shards == shard {
+            oracle_c01(ctx, s, "seed");
+        }
     }
     for _ in 0..n {
         let seed = rng.pick(seeds).clone();
@@ -530,7 +631,7 @@ fn run_c01(ctx: &mut Ctx, rng: &mut Rng, seeds: &[Vec<u8>], n: u64) {
     }
 }
 
-fn run_c02(ctx: &mut Ctx, rng: &mut Rng, seeds: &[Vec<u8>], n_valid: u64, n_mut: u64, all_cuts: bool) {
+fn run_c02(ctx: &mut Ctx, rng: &mut Rng, seeds: &[Vec<u8>], n_valid: u64, n_mut: u64, all_cuts: bool, shard: usize, shards: usize) {
     let conts: Vec<Vec<u8>> = vec![
         b"* 1 EXISTS\r\n".to_vec(),
         b"\x00\xff(".to_vec(),
@@ -539,8 +640,9 @@ fn run_c02(ctx: &mut Ctx, rng: &mut Rng, seeds: &[Vec<u8>], n_valid: u64, n_mut:
         b"x".to_vec(),
     ];
     for i in 0..n_valid {
-        let r = if (i as usize) < seeds.len() {
-            seeds[i as usize].clone()
+        let idx = i as usize * shards + shard;
+        let r = if idx < seeds.len() {
+            seeds[idx].clone()
         } else {
             rng.pick(seeds).clone()
         };
@@ -584,9 +686,11 @@ fn run_c02(ctx: &mut Ctx, rng: &mut Rng, seeds: &[Vec<u8>], n_valid: u64, n_mut:
     }
 }
 
-fn run_c09(ctx: &mut Ctx, rng: &mut Rng, seeds: &[Vec<u8>], n: u64) {
-    for s in seeds {
-        oracle_c09(ctx, s, "seed");
+fn run_c09(ctx: &mut Ctx, rng: &mut Rng, seeds: &[Vec<u8>], n: u64, shard: usize, shards: usize) {
+    for (i, s) in seeds.iter().enumerate() {
+        if i % shards == shard {
+            oracle_c09(ctx, s, "seed");
+        }
     }
     for _ in 0..n {
         let seed = rng.pick(seeds).clone();
@@ -749,14 +853,16 @@ fn main() {
     let thorough = tier == "thorough";
     let model = args.get_or("model", "/verif/lean/.lake/build/bin/imapmodel");
     let out = args.get_or("out", "/dev/stdout");
-    let shards = args.num("shards", 8) as usize;
+    let shards = args.num("shards", 12) as usize;
     let corpus_dir = args.get_or("corpus", &format!("/verif/corpus/{}", prop));
     if let Some(f) = args.get("replay") {
         std::process::exit(run_replay(&model, f, &prop));
     }
 
     let corpus = load_corpus(&corpus_dir);
-    let seeds = seeds_for(&corpus);
+    let gen = generated_seeds(seed, if thorough { 40 } else { 5 }, if thorough { 65536 } else { 2000 });
+    let n_gen = gen.len();
+    let seeds = seeds_for(&corpus, gen);
     let total = Mutex::new(Log::default());
 
     // the corpus runs first (shard 0 does it), then the generated cases, sharded
@@ -788,8 +894,8 @@ fn main() {
                 let sh = shards as u64;
                 match prop.as_str() {
                     "C01" => {
-                        let n = if thorough { 1_000_000 } else { 20_000 };
-                        run_c01(&mut ctx, &mut rng, seeds, n / sh);
+                        let n = if thorough { 2_000_000 } else { 200_000 };
+                        run_c01(&mut ctx, &mut rng, seeds, n / sh, shard, shards);
                         if shard == 0 {
                             let levels: Vec<usize> = if thorough {
                                 let mut l: Vec<usize> = (1..=40).collect();
@@ -802,12 +908,12 @@ fn main() {
                         }
                     }
                     "C02" => {
-                        let (nv, nm) = if thorough { (20_000, 200_000) } else { (400, 5_000) };
-                        run_c02(&mut ctx, &mut rng, seeds, nv / sh, nm / sh, thorough);
+                        let (nv, nm) = if thorough { (20_000, 400_000) } else { (1_600, 40_000) };
+                        run_c02(&mut ctx, &mut rng, seeds, nv / sh, nm / sh, thorough, shard, shards);
                     }
                     "C09" => {
-                        let n = if thorough { 500_000 } else { 5_000 };
-                        run_c09(&mut ctx, &mut rng, seeds, n / sh);
+                        let n = if thorough { 1_000_000 } else { 100_000 };
+                        run_c09(&mut ctx, &mut rng, seeds, n / sh, shard, shards);
                     }
                     "C13" => {
                         if shard == 0 {
@@ -817,12 +923,22 @@ fn main() {
                     _ => {}
                 }
                 ctx.flush();
+                // directed search around disagreements (bounded)
+                let suspects = std::mem::take(&mut ctx.suspects);
+                for b in suspects.iter().take(20) {
+                    search_around(&mut ctx, &mut rng, b);
+                }
+                ctx.flush();
+                ctx.suspects.clear();
                 total.lock().unwrap().merge(ctx.log);
             });
         }
     });
 
     let mut log = total.into_inner().unwrap();
+    log.count_n("seeds:built-in", SEEDS.len() as u64);
+    log.count_n("seeds:corpus", corpus.len() as u64);
+    log.count_n("seeds:generated", n_gen as u64);
     // samples: a few evaluated inputs written out
     let mut srng = Rng::new(seed);
     for _ in 0..6 {
